@@ -451,6 +451,8 @@ BREAKING = [
      "    except (SyntaxError, UnicodeError) as error:", "    except (SyntaxError, UnicodeDecodeError) as error:", ["C10"]),
     ("fixed cells: every white space stripped, not only blanks", "cutplace/fields.py",
      '            possibly_stripped_value = value.strip(" ")', "            possibly_stripped_value = value.strip()", ["C03", "C20"]),
+    ("DistinctCount: names in the count expression not looked at", "cutplace/checks.py",
+     "        self._validate_names_in_expression()\n", "", ["C09", "C10"]),
     ("DecimalRange: only NaN refused", "cutplace/ranges.py",
      "        if not value_as_decimal.is_finite():", "        if value_as_decimal.is_nan():", ["C02"]),
     ("__exit__: end checks replace the pending error", "cutplace/validio.py",
